@@ -307,6 +307,7 @@ func c06RunSched(capQ, batch, buf int, ops []string, win time.Duration) (cfg [3]
 	cfg = [3]int{bp.q.cap, bp.batchSize, cap(bp.exporter.input)}
 	r := &c06Run{bp: bp, exp: exp, ended: map[int]bool{}, ffRes: map[int]string{}, sdRes: map[int]string{}, parked: map[string]chan struct{}{}}
 	for _, op := range ops {
+		parkedOp := false
 		// forced schedules: `p?` arms a park at a hook and starts the call, `r?` releases it
 		if len(op) >= 2 && (op[0] == 'p' || op[0] == 'r') {
 			key := op[1:]
@@ -333,6 +334,7 @@ func c06RunSched(capQ, batch, buf int, ops []string, win time.Duration) (cfg [3]
 				r.parked["s"] = c06ArmPark("blrp.bufferExporter.Export.enter")
 			}
 			op = op[1:]
+			parkedOp = true
 		}
 		switch {
 		case op == "g+" || op == "g-" || op == "gc" || op == "gd":
@@ -376,8 +378,10 @@ func c06RunSched(capQ, batch, buf int, ops []string, win time.Duration) (cfg [3]
 		case op[0] == 'e':
 			id, _ := strconv.Atoi(op[1:])
 			r.pending.Add(1)
+			emitDone := make(chan struct{})
 			go func() {
 				defer r.pending.Done()
+				defer close(emitDone)
 				stoppedBefore := bp.stopped.Load()
 				rec := c06Record(id)
 				_ = bp.OnEmit(context.Background(), &rec)
@@ -388,6 +392,15 @@ func c06RunSched(capQ, batch, buf int, ops []string, win time.Duration) (cfg [3]
 					r.mu.Unlock()
 				}
 			}()
+			if !parkedOp {
+				// OnEmit never blocks: wait for the call itself instead of inferring its end from a quiescence window
+				// (on a loaded machine the goroutine may not even have started within the window, and the next
+				// emit of the script would overtake it)
+				select {
+				case <-emitDone:
+				case <-time.After(5 * time.Second):
+				}
+			}
 		case op[0] == 'f':
 			fid, _ := strconv.Atoi(op[1:])
 			r.mu.Lock()
